@@ -218,7 +218,7 @@ pub fn runner_config(cases: u32) -> Config {
         failure_persistence: None,
         source_file: None,
         test_name: None,
-        max_shrink_time: 0,
+        max_shrink_time: 40_000,
         max_shrink_iters: 1200,
         verbose: 0,
         rng_algorithm: RngAlgorithm::ChaCha,
